@@ -3,6 +3,7 @@ import concurrent.futures
 import json
 import os
 import re
+import time
 
 import vp
 
@@ -88,6 +89,11 @@ LOCAL_KNOWN = {
     "string:remove-at-len":
         "String::remove(idx) with idx == len() returns Some(0) (the terminator; StaticString with len == capacity: "
         "index-out-of-bounds panic) instead of None: the bounds check is `len < idx` instead of `len <= idx`",
+    "string:nul-terminator":
+        "RelocatableString::init never writes a terminator and PolymorphicString::new writes only data[0]; "
+        "insert_bytes_unchecked writes the terminator only if new_len < capacity: a fresh RelocatableString and a FULL "
+        "Relocatable/PolymorphicString are NUL-terminated only if the backing memory happened to be zero "
+        "(as_c_str()/as_bytes_with_nul() over recycled memory are not terminated)",
     "string:static-full-zero-range":
         "StaticString with len() == capacity(): remove_range(idx, 0), strip_prefix(b\"\") and strip_suffix(b\"\") panic "
         "(index out of bounds): remove_range writes the terminator at data[new_len] unconditionally and data has "
@@ -252,11 +258,13 @@ def run_walk(ctx, aut, kind, flavour, cap, mode, opts=(), timeout=1500, salt=0):
     """One child process = one (container, flavour, capacity, mode). A fault of the child is data."""
     args = ["walk", "--automaton", aut, "--kind", kind, "--flavour", flavour, "--cap", cap, "--mode", mode,
             "--salt", salt] + list(opts)
+    t0 = time.time()
     rc, so, se = vp.run_driver(DRIVER, args, timeout=timeout, env={"VERIF_SEED": ctx.seed}, ok_codes=None)
+    wall = round(time.time() - t0, 2)
     base = {"kind": kind, "flavour": flavour, "cap": cap, "mode": mode, "opts": list(map(str, opts)), "automaton": aut}
     if rc == 0:
         s = vp.last_json_line(so)
-        s.update({"opts": base["opts"], "automaton": aut})
+        s.update({"opts": base["opts"], "automaton": aut, "wall": wall})
         return s
     m = _re_crash.search(se)
     if rc == 86 and m:
@@ -390,7 +398,7 @@ def run(ctx):
     vp.cargo_build([DRIVER])
     quick = ctx.quick
     caps = [0, 1, 2] if quick else [0, 1, 2, 3, 4]
-    budget = 150_000 if quick else 3_000_000
+    budget = 400_000 if quick else 5_000_000
     ctx.assumptions += [
         "element domain: 3 tokens; string bytes {0,'a','b','/',0xC8}; slices of length <= 2; capacities " + str(caps),
         "graph lock-step compares after EVERY step: result, net drops per token (drop-counting element), len/is_empty/"
@@ -430,6 +438,13 @@ def run(ctx):
                 jobs.append(((automata[kind], kind, fl, cap, "random", o), {"salt": 7}))
                 trace_jobs.setdefault(kind, []).append((tf, walks))
     summaries = run_jobs(ctx, jobs, workers=8)
+    slow = sorted((s for s in summaries if "wall" in s), key=lambda s: -s["wall"])[:5]
+    vp.log("slowest driver runs: " + "; ".join(f"{s['kind']}/{s['flavour']}/{s['cap']} {s['mode']} {s['wall']}s" for s in slow))
+    clean_traces = set()
+    for s in summaries:
+        if "--trace-out" in s["opts"] and "crash" not in s and \
+                all(d["class"].startswith("string:nul-terminator") for d in s["divergences"]):
+            clean_traces.add(s["opts"][s["opts"].index("--trace-out") + 1])
     for s in summaries:
         if "crash" in s:
             continue
@@ -458,6 +473,7 @@ def run(ctx):
     # ---- 4. impl -> spec: TLC validates the recorded walks
     qtrace = None
     for kind, files in trace_jobs.items():
+        files = [(f, w) for f, w in files if f in clean_traces]
         merged, recs, ok = validate_trace(ctx, kind, KINDS[kind]["trace"], [f for f, _ in files],
                                           sum(w for f, w in files if os.path.exists(f) and os.path.getsize(f) > 0))
         if kind == "queue":
